@@ -190,7 +190,7 @@ def register(reg, S):
                  ("cursor-nonneg", "result[2] >= 0"),
                  ] + note_post + sus_post + end_post + hopo_post + sp_post + [
                  # the name of this whole postcondition, used opaquely by the grouping loop
-                 ("def:NEPOST", "opaque('NEPOST', datas, prev_event, star_power_events, bpm_events, star_power_event_index, result[0], result[2])")],
+                 ("def:NEPOST", "opaque('NEPOST', datas, prev_event, bpm_events, result[0])")],
         props=["C01", "C02", "C03", "C04", "C05", "C11", "C12"]))
 
     # ------------------------------------------------------------------ grouping note data by tick
@@ -198,19 +198,27 @@ def register(reg, S):
     spe_end = lambda j: f"star_power_events[{j}].tick + star_power_events[{j}].sustain"
 
     def per_event(evs, k="k", reveal=False):
-        """from_parsed_data's postcondition for event k built from datas[g_lo[k]:g_hi[k]]."""
+        """What the grouping loop records about event k, built from datas[g_lo[k]:g_hi[k]]:
+        the hint-independent part of from_parsed_data's postcondition (as the opaque NEPOST, or
+        unfolded when reveal=True) plus the star-power facts stated without reference to the
+        cursor that was passed in (so that how the cursor is threaded is not pinned down)."""
         m = {"datas": f"slice(datas, g_lo[{k}], g_hi[{k}])",
              "prev_event": f"(None if {k} == 0 else {evs}[{k} - 1])",
-             "star_power_event_index": f"(0 if {k} == 0 else g_c[{k} - 1])",
              "result[0]": f"{evs}[{k}]", "result[1]": f"{evs}[{k}]._proximal_bpm_event_index",
              "result[2]": f"g_c[{k}]"}
+        e, c, spe_ = f"{evs}[{k}]", f"g_c[{k}]", "star_power_events"
+        sp = (f"{c} >= 0 and implies(len({spe_}) == 0, {e}.star_power_data is None and {c} == 0) "
+              f"and implies(len({spe_}) > 0, {c} < len({spe_}) and ({c} == len({spe_}) - 1 or {spe_end(c)} > {e}.tick) "
+              f"and iff({e}.star_power_data is not None, {spe_}[{c}].tick <= {e}.tick and {e}.tick < {spe_end(c)})) "
+              f"and implies({e}.star_power_data is not None, {e}.star_power_data.star_power_event_index == {c})")
         if reveal:
-            return " and ".join("(" + subst(t, m) + ")" for n, t in ne_c.ensures if not n.startswith("def:"))
-        t = dict(ne_c.ensures)["def:NEPOST"]
-        # the facts about event k that the loop itself needs, plus the opaque postcondition
-        return (f"{evs}[{k}].tick == datas[g_lo[{k}]].tick and {evs}[{k}]._proximal_bpm_event_index >= 0 and g_c[{k}] >= 0 "
-                f"and {evs}[{k}]._proximal_bpm_event_index == gov({be}, {evs}[{k}].tick) "
-                f"and implies(len(star_power_events) > 0, g_c[{k}] < len(star_power_events)) and " + subst(t, m))
+            body = " and ".join("(" + subst(t, m) + ")" for n, t in ne_c.ensures
+                                if not n.startswith("def:") and not n.startswith("sp-") and n != "cursor-nonneg")
+        else:
+            body = (f"{e}.tick == datas[g_lo[{k}]].tick and {e}._proximal_bpm_event_index >= 0 "
+                    f"and {e}._proximal_bpm_event_index == gov({be}, {e}.tick) and "
+                    + subst(dict(ne_c.ensures)["def:NEPOST"], m))
+        return f"{body} and {sp}"
 
     def structure(evs, upto):
         n = f"len({evs})"
